@@ -19,6 +19,13 @@ for d in sorted((ROOT / "seeded").iterdir()):
     what = (m.get("what") or "").replace("\n", " ")
     rows.append(f"| {d.name} | {', '.join(m.get('files') or []) if isinstance(m.get('files'), list) else m.get('files')} | {what[:150]} | "
                 f"{'yes' if c.get('confirmed') else ('?' if not c else 'NO')} | {'; '.join(verdicts)} | {m.get('history', '')} |")
+tot = len(rows)
+missed_first = sum(1 for r in rows if "missed" in r.split("|")[-2] or "first only" in r.split("|")[-2] or "first caught only" in r.split("|")[-2])
+now_missed = sum(1 for r in rows if "MISSED" in r)
+nofail = sum(1 for r in rows if "no-failing-input-found" in r.split("|")[-3])
+print(f"SUMMARY: {tot} kept changes; {tot - missed_first} were caught by the check as it stood when the change arrived, {missed_first} were missed or caught only "
+      f"as `no-failing-input-found` at first and are caught after the strengthening named in the last column; as of this commit {now_missed} are missed and "
+      f"{nofail} are caught without a failing input.\n")
 print("| id | file(s) | change | confirmed (demo fails with / passes without; suite passes) | quick check verdict | history |")
 print("|---|---|---|---|---|---|")
 print("\n".join(rows))
